@@ -32,7 +32,9 @@ VARIANTS = {
     "sched": dict(cxx="clang++", cc="clang", flags="-Wno-error " + SCHED_FLAGS, extra=[]),
     "schedn": dict(cxx="clang++", cc="clang", flags="-Wno-error " + SCHEDN_FLAGS, extra=[]),
     "fuzz": dict(cxx="clang++", cc="clang", flags="-Wno-error " + FUZZ_FLAGS, extra=[]),
-    "native": dict(cxx="g++", cc="gcc", flags="-Wno-error " + NATIVE_FLAGS,
+    # library, tools and applications are built the way the baseline builds
+    # them (assertions off: what a user runs); harness TUs re-enable asserts
+    "native": dict(cxx="g++", cc="gcc", flags="-Wno-error " + NATIVE_FLAGS + " -DNDEBUG",
                    extra=["-DGALOIS_ENABLE_DIST=ON"]),
 }
 
